@@ -84,10 +84,14 @@ struct Tracked {
         Ledger::get().ctor(this);
         ++Ledger::get().copied;
     }
+    //! key/payload of a moved-from object: code that goes on using a moved-from element as if it still
+    //! held its value is then visibly wrong (like an emptied std::string)
+    static const int MOVED_FROM = -771771;
     Tracked(Tracked&& o) noexcept : key(o.key), payload(o.payload), heap(nullptr) {
         Ledger::get().use(&o, "move-from-non-live-object");
         heap = o.heap;
-        o.heap = new int(-1);   // moved-from stays a valid object
+        o.heap = new int(MOVED_FROM);   // moved-from stays a valid (destructible, assignable) object
+        o.key = MOVED_FROM; o.payload = MOVED_FROM;
         Ledger::get().ctor(this);
         ++Ledger::get().moved;
     }
@@ -101,7 +105,7 @@ struct Tracked {
     Tracked& operator=(Tracked&& o) noexcept {
         Ledger::get().use(this, "assign-to-non-live-object");
         Ledger::get().use(&o, "assign-from-non-live-object");
-        if (this != &o) { key = o.key; payload = o.payload; std::swap(heap, o.heap); }
+        if (this != &o) { key = o.key; payload = o.payload; std::swap(heap, o.heap); *o.heap = MOVED_FROM; o.key = MOVED_FROM; o.payload = MOVED_FROM; }
         ++Ledger::get().assigned;
         return *this;
     }
